@@ -92,7 +92,11 @@ class ImageList:
         imlist = []
         for img in iter_axis(image, in_ax):
             if dropout:
-                cmap = drop_io_dim(img.coordmap, out_ax_name)
+                # The slice has no input axis for this output axis any more, so
+                # its row of the affine can be all zeros.  ``fix0`` would then
+                # pair it with an unrelated all-zero column (a length-1 axis,
+                # a zero TR) and drop that input axis as well.
+                cmap = drop_io_dim(img.coordmap, out_ax_name, fix0=False)
                 img = Image(img.get_fdata(), cmap, img.metadata)
             imlist.append(img)
         return klass(imlist)
